@@ -818,7 +818,8 @@ fn nested(dir: &Path, files: &BTreeMap<String, Vec<u8>>, rec: &Recorded, first: 
             Opened::Contents(_) => {
                 let _ = (phase, feat);
                 let where_ = if phase == "checkpoint" || phase == "vacuum" || phase == "log-truncate" { "crash-inside-checkpoint".to_string() } else { format!("{}:[{}]", phase, feat) };
-                report::violation(&format!("C08:recovery-not-convergent:{}", where_), &format!("crash after mutation {} of {} inside recovery, then recovery: {:?}; uninterrupted recovery: {:?}", j + 1, rmuts.len(), summary(&o2), summary(first)), case());
+                let _ = &where_;
+                report::violation("C08:recovery-not-convergent", &format!("crash after mutation {} of {} inside recovery, then recovery: {:?}; uninterrupted recovery: {:?}", j + 1, rmuts.len(), summary(&o2), summary(first)), case());
                 break;
             }
             Opened::OpenFailed(e) | Opened::Unreadable(e) => {
@@ -827,7 +828,8 @@ fn nested(dir: &Path, files: &BTreeMap<String, Vec<u8>>, rec: &Recorded, first: 
                     Mutation::Write(f, ..) if f == "axmos.log" => "after-log-write",
                     _ => "after-page-write",
                 };
-                report::violation(&format!("C08:open-failed-after-crash-in-recovery:{}:{}", err_kind(e), kind), &format!("crash after mutation {} of {} inside recovery: {}", j + 1, rmuts.len(), e), case());
+                let _ = &kind;
+                report::violation(&format!("C08:open-failed-after-crash-in-recovery:{}", err_kind(e)), &format!("crash after mutation {} of {} inside recovery: {}", j + 1, rmuts.len(), e), case());
                 break;
             }
         }
